@@ -167,8 +167,13 @@ PROPS = {
     ),
     'C05': dict(
         areas=[('algo', 20000, 2000000), ('pat', 6000, 600000)],
+        procs=['conv'], needs_fzf=True,
         rule=ALGO_RULE + '; `pure` cases run one (line, term) under every slab state (zeroed, seeded junk, preceding call '
-             'history, nil), both representations and with/without positions',
+             'history, nil), both representations and with/without positions; `pat qh` cases search the SAME items under a '
+             'sequence of 2..4 --nth expressions (each a later minor revision, as change-nth produces) and require every row '
+             'to be what a fresh search gives; conv: the real fzf in a private tmux server over 150..1200 lines, a query '
+             'under one --nth, change-nth, another query; the match list must be the fresh filter of the same lines, query '
+             'and options (10 scenarios quick, 150 thorough; believed only if it repeats)',
         trusted=ALGO_TRUST,
         level_text='Lean 4 theorem for every program over scratch memory: if the checked run (no read of a cell not written '
                    'by this call, no index out of range) succeeds then the raw run returns the same value for every slab '
